@@ -98,6 +98,8 @@ type spec struct {
 	Extras           bool // the storage also implements CanGetPrivateClaimsFromRequest / CanSetUserinfoFromRequest / ... besides TokenExchangeStorage
 	UISubjectByScope bool // the storage fills UserInfo.Subject of an exchanged ID token only when openid is among the decided scopes
 	NoRefreshVet     bool // the storage trusts the framework's refresh-token look-up instead of re-checking it
+	NoDefaultType    bool // the storage's ValidateTokenExchangeRequest sets no default for an absent requested_token_type (the choice is the provider's)
+	FaultSweep       bool // after the clean request the same request is repeated once per storage call k of its trace, the k-th call failing (storvar.go)
 	SigAlg           jose.SignatureAlgorithm
 	Scope            string // "\x00" = absent
 	Audience         []string
@@ -162,6 +164,9 @@ var scenarios = []spec{
 }
 
 func drawSpec(r *rand.Rand, i int, matrixCases int) spec {
+	if i >= storBase {
+		return drawStorSpec(r, i-storBase)
+	}
 	if i >= scenarioBase {
 		s := scenarios[i-scenarioBase]
 		s.SigAlg = jose.RS256
@@ -324,6 +329,8 @@ type exch struct {
 	Resource      []string
 	GrantNil      bool // the storage grants no scope for this request
 	Multi         bool // a step of a multi-issuer history (multi.go)
+	NoDefault     bool // the storage sets no default requested type: with the parameter absent the issued type is the provider's choice
+	Fault         *faultAt // the storage call of this request that fails (storvar.go); nil = none
 }
 
 type stepLog struct {
@@ -337,6 +344,7 @@ type stepLog struct {
 	Auth     string     `json:"client_auth"`
 	Form     url.Values `json:"form"`
 	Policy   string     `json:"storage_policy"`
+	Fault    string     `json:"storage_fault,omitempty"`
 	Status   int        `json:"status"`
 	Body     string     `json:"body"`
 	Verdict  string     `json:"verdict"`
@@ -475,9 +483,11 @@ func expect(e *exch, policy vstore.TEPolicy, impersonateAs string) expectation {
 		x.Scopes = []string{}
 	}
 	x.Issued = e.Requested
-	if x.Issued == "" {
+	if x.Issued == "" && !e.NoDefault {
 		x.Issued = tAccess
 	}
+	// (x.Issued == "": nobody named a type - neither the client nor the storage; whatever the provider answers must
+	// name what it contains, resolved in verifyIssued)
 	return x
 }
 
@@ -490,6 +500,7 @@ type caseRun struct {
 	returned *opdrv.Tokens
 	retExp   expectation
 	stop     bool
+	trace    []string       // storage methods called by the last exchange request, in order (before any verification call)
 	extra    map[string]any // further witness members (multi-issuer histories: strategy, views, token pool)
 }
 
@@ -603,15 +614,54 @@ func (cr *caseRun) do(e *exch) *opdrv.Tokens {
 	must0, grey0 := refuse()
 	w.Store.ResetJournal()
 	form := e.form()
+	if e.Fault != nil {
+		w.Store.Arm(e.Fault.plan())
+	}
 	resp := w.Token(c.router, form, auth)
+	if e.Fault != nil {
+		w.Store.Arm(nil)
+	}
 	must1, _ := refuse()
 	run.Eval()
+	cr.trace = cr.trace[:0:0]
+	for _, en := range w.Store.Journal() {
+		cr.trace = append(cr.trace, en.Method)
+	}
+	// the storage call that failed in this request, if one was planned and reached
+	fIdx, fMethod := -1, ""
+	if e.Fault != nil {
+		for i, en := range w.Store.Journal() {
+			if en.Fault {
+				fIdx, fMethod = i, en.Method
+				if teHooks[en.Method] {
+					// a storage that fails in one of its token-exchange hooks has not approved the request, whatever the error value
+					y := why{fmt.Sprintf("the storage failed at its %s hook (%s)", en.Method, en.Err), "storage-failure:" + en.Method}
+					must0, must1 = append(must0, y), append(must1, y)
+				}
+				break
+			}
+		}
+	}
 
 	body := resp.Body.String()
 	if len(body) > 1200 {
 		body = body[:1200] + "..."
 	}
 	sl := stepLog{Step: e.Step, Router: rn, Auth: authDesc, Form: form, Policy: policyNames[policy], Status: resp.Status, Body: body}
+	if e.Fault != nil {
+		sl.Fault = e.Fault.describe(w.Store.Journal(), fIdx)
+		out := fmt.Sprint(resp.Status)
+		if ec, _ := resp.JSON()["error"].(string); ec != "" {
+			out += " " + ec
+		}
+		if fIdx < 0 {
+			run.Count("fault_not_reached|"+rn, fmt.Sprintf("call %d (%s in the clean trace)", e.Fault.K, e.Fault.Method))
+		} else {
+			run.Count("fault_outcome|"+rn, fMethod+" -> "+out)
+			run.Count("fault_flavour", e.Fault.Flavour+" -> "+out)
+			observed("fault:fired:" + fMethod + ":" + rn)
+		}
+	}
 	if v := w.view; v != nil {
 		sl.Host, sl.Forwarded, sl.Issuer = v.Host, v.hdr, v.Issuer
 		sl.Tokens = "subject " + e.Subj.ref()
@@ -640,6 +690,16 @@ func (cr *caseRun) do(e *exch) *opdrv.Tokens {
 		return nil
 	}
 	m := resp.JSON()
+	if e.NoDefault && e.Requested == "" && e.Fault == nil {
+		// did the request reach the point where nobody has named a type (the storage approved and set none)?
+		for _, en := range w.Store.Journal() {
+			if en.Method == "ValidateTokenExchangeRequest" && en.Err == "" && strings.HasSuffix(en.Ret, "|") {
+				observed("nodefault:absent:answered:" + rn)
+				ec, _ := m["error"].(string)
+				run.Count("no_default_type_absent_answer|"+rn, strings.TrimSpace(fmt.Sprintf("%d %s", resp.Status, ec)))
+			}
+		}
+	}
 
 	if resp.Status != 200 {
 		// ----- a refusal: must be an OAuth error document without any token -----
@@ -667,13 +727,17 @@ func (cr *caseRun) do(e *exch) *opdrv.Tokens {
 				claimsVeto = true
 			}
 		}
-		for _, en := range w.Store.Journal() {
+		for i, en := range w.Store.Journal() {
 			switch en.Method {
 			case "CreateTokenExchangeRequest":
 				hookVeto = hookVeto || (en.Err != "" && !en.Fault)
 			case "CreateAccessToken", "CreateAccessAndRefreshTokens":
 				if en.Err == "" && claimsVeto {
 					run.Count("grey", "token-record-created-before-the-claims-hook-refused")
+				} else if en.Err == "" && fIdx > i {
+					// the storage failed in a later call of the same request (signing key, claims): the record exists and is
+					// never delivered; the statement speaks of success responses only
+					run.Count("grey", "token-record-created-before-the-storage-failed-at-"+fMethod)
 				} else if en.Err == "" {
 					last.Verdict = "violation"
 					cr.violate("refusal-after-token-creation", fmt.Sprintf("the exchange was answered %d %s (%s) but the storage had already created a token for it (%s -> %s)", resp.Status, errCode, desc, en.Method, en.Ret))
@@ -748,10 +812,22 @@ func (cr *caseRun) do(e *exch) *opdrv.Tokens {
 		cr.violate("success-body-not-json", "200 whose body is not a JSON object: "+body)
 		return nil
 	}
-	if !cr.verifyIssued(e, x, toks, last) {
+	if !cr.verifyIssued(e, &x, toks, last) {
 		return nil
 	}
 	last.Verdict = "success, returned token verified"
+	if fIdx >= 0 {
+		// a storage call of this request failed and the provider answered 200 all the same: whether that may be is C10's
+		// question; here the answer was held to everything a success response owes (and it did)
+		last.Verdict = "success although the storage failed at " + fMethod + ", returned token verified"
+		run.Count("success_after_storage_failure|"+rn, fMethod+" ("+e.Fault.Flavour+")")
+	}
+	if e.NoDefault {
+		run.Count("no_default_type|"+rn, "requested="+e.ReqDim+" -> 200 issued="+shortType(x.Issued))
+		if e.Requested != "" {
+			observed("nodefault:success:explicit:" + rn)
+		}
+	}
 	issued := shortType(x.Issued)
 	run.Count("success|"+rn, fmt.Sprintf("subject=%s actor=%s issued=%s policy=%s", e.Subj.Kind, actorKind, issued, policyNames[policy]))
 	run.Count("success_client", e.Client.ID+"/"+e.Cred)
@@ -804,16 +880,44 @@ func actSub(v any) string {
 func eqScopes(a, b []string) bool { return strings.Join(a, " ") == strings.Join(b, " ") }
 
 // verifyIssued checks that the 200 answer contains what issued_token_type names, live and as decided.
-func (cr *caseRun) verifyIssued(e *exch, x expectation, toks *opdrv.Tokens, last *stepLog) bool {
+func (cr *caseRun) verifyIssued(e *exch, xp *expectation, toks *opdrv.Tokens, last *stepLog) bool {
 	run, c, w := cr.run, cr.c, cr.c.w
 	bad := func(key, what string) bool {
 		last.Verdict = "violation"
 		cr.violate(key, what)
 		return false
 	}
+	if xp.Issued == "" {
+		// neither the client nor the storage named a type: the choice was the provider's, but the answer must still name
+		// a kind of token (and, below, contain exactly that)
+		switch toks.IssuedType {
+		case tAccess, tRefresh, tID:
+			xp.Issued = toks.IssuedType
+			last.Expected = *xp
+			run.Count("provider_chosen_issued_type", shortType(toks.IssuedType))
+		default:
+			return bad("issued-type-names-nothing", fmt.Sprintf("200 whose issued_token_type %q names no kind of token the provider issues (requested_token_type absent, the storage set none)", toks.IssuedType))
+		}
+	}
+	x := *xp
 	issued := shortType(x.Issued)
 	if toks.IssuedType != x.Issued {
 		return bad("issued-type-mismatch", fmt.Sprintf("issued_token_type %q although the storage decided %q", toks.IssuedType, x.Issued))
+	}
+	// the response contains the kind of token it names and no other: a refresh token nobody requested, the storage
+	// policy never decided and issued_token_type does not name is not "what it declares"
+	if issued != "refresh_token" && toks.Refresh != "" {
+		return bad("issued:undeclared-refresh_token", fmt.Sprintf("200 with issued_token_type %s (requested_token_type %s) that also carries a refresh_token %q", issued, e.ReqDim, toks.Refresh))
+	}
+	if toks.ID != "" {
+		run.Count("grey", "additional id_token member next to issued_token_type "+issued)
+	}
+	if issued != "refresh_token" {
+		for _, en := range w.Store.Journal() {
+			if en.Method == "CreateAccessAndRefreshTokens" && en.Err == "" {
+				run.Count("grey", "refresh-token-record-created-for-issued_token_type-"+issued+"-but-not-returned")
+			}
+		}
 	}
 	// the storage must have been asked, and about the right subject
 	var decided *vstore.Entry
@@ -1017,6 +1121,7 @@ func runCase(run *ev.Run, idx, router, matrixCases int) {
 	w.Store.TEVetoAtCreate = sp.VetoAtCreate
 	w.Store.TEVetoAtClaims = sp.VetoAtClaims
 	w.Store.TEGrantNil = sp.GrantNil
+	w.Store.TENoDefaultType = sp.NoDefaultType
 	c := &caseCtx{w: w, router: router, r: r, prep: []prepOp{}}
 	cr := &caseRun{run: run, idx: idx, c: c, sp: sp}
 
@@ -1035,7 +1140,7 @@ func runCase(run *ev.Run, idx, router, matrixCases int) {
 		return
 	}
 	e := &exch{Step: "primary", Client: w.cl[sp.Client], Cred: sp.Cred, Subj: subj, Actor: actor, ReqDim: sp.Requested,
-		Scope: sp.Scope, Audience: sp.Audience, Resource: sp.Resource, GrantNil: sp.GrantNil}
+		Scope: sp.Scope, Audience: sp.Audience, Resource: sp.Resource, GrantNil: sp.GrantNil, NoDefault: sp.NoDefaultType}
 	e.SubjDeclared = typeURN(r, sp.SubjDeclared)
 	if sp.SubjDeclared == "junk" && r.IntN(4) == 0 {
 		e.SubjDeclared = "" // parameter absent
@@ -1058,6 +1163,13 @@ func runCase(run *ev.Run, idx, router, matrixCases int) {
 		return
 	}
 	x := expect(e, sp.Policy, "user-imp")
+	if x.Issued == "" && toks != nil {
+		x.Issued = toks.IssuedType // the provider's choice, verified by do
+	}
+	if sp.FaultSweep {
+		cr.faultSweep(e, toks, x)
+		return
+	}
 
 	// ----- follow-up requests: a short history over the same tokens -----
 	retTok := func() (*tok, string) {
@@ -1107,8 +1219,12 @@ func runCase(run *ev.Run, idx, router, matrixCases int) {
 			e2.Requested = typeURN(r, pick(r, "absent", "access", "refresh", "id", "jwt"))
 			e2.ReqDim = shortType(e2.Requested)
 			t2 := cr.do(&e2)
-			if t2 != nil && !cr.stop && shortType(expect(&e2, sp.Policy, "user-imp").Issued) == "refresh_token" {
-				cr.useRefresh(&e2, expect(&e2, sp.Policy, "user-imp"), t2.Refresh)
+			x2 := expect(&e2, sp.Policy, "user-imp")
+			if x2.Issued == "" && t2 != nil {
+				x2.Issued = t2.IssuedType
+			}
+			if t2 != nil && !cr.stop && shortType(x2.Issued) == "refresh_token" {
+				cr.useRefresh(&e2, x2, t2.Refresh)
 			}
 		}
 	case "returned-as-actor":
@@ -1150,13 +1266,18 @@ func main() {
 		"(router, step, subject kind/variant, declared type, actor kind, actor declared type, requested type, policy, client, credential kind, verifier storage); " +
 		"stratum 'multi-issuer' (case indices from 2e6): one provider with a request-dependent issuer (IssuerFromHost \"\" and \"/tenant/x\", IssuerFromForwardedOrHost behind a proxy) serving two or three hosts; " +
 		"code flows under every host, then a history of 5-10 exchanges that presents ID tokens, JWT / opaque access tokens, refresh tokens and the tokens earlier steps returned at the issuer they were issued under and at the others, " +
-		"as subject or actor (5 scripted histories x 3 strategies, then drawn ones); the step name carries the relation (own / other / other-unbound) of subject and actor to the addressed issuer")
+		"as subject or actor (5 scripted histories x 3 strategies, then drawn ones); the step name carries the relation (own / other / other-unbound) of subject and actor to the addressed issuer; " +
+		"stratum 'storage-variants' (case indices from 3e6, scripted then drawn, conforming requests): 'no-default-type' = a storage whose ValidateTokenExchangeRequest leaves an absent requested_token_type alone (requested absent / access / refresh / id); " +
+		"'fault-sweep' = the request once cleanly, then once per storage call k of its trace with the k-th call failing (plain / deadline / server_error / OAuth refusal / cancelled context, rotating), then once more cleanly - every answer judged on its own")
 	run.Assume(
 		"vstore policy (DESIGN 3): ValidateTokenExchangeRequest vets liveness of access / refresh tokens by id and subject, accepts ID tokens the framework verified, sets requested type access_token when absent, keeps only known scopes (default openid), impersonation replaces the subject, veto answers invalid_target",
 		"an ID token is live iff genuine and unexpired (not revocable, DESIGN 6a); expiry is produced by the harness hours away from now, never by racing the clock",
 		"a public client that only identifies itself, a client without the token-exchange grant (C05's business) and a genuine JWT declared as the generic urn:...:jwt type are grey: counted, never failed",
 		"issued_token_type refresh_token is judged as DESIGN decided: the response's refresh_token member must be a live refresh token usable at the refresh grant (the accompanying access_token is verified like an access token)",
 		"only refusal is never judged ('succeeds only for'): a conforming request that is refused is counted in conforming_refused",
+		"a success response contains a refresh_token exactly when issued_token_type names refresh_token: a refresh token that nobody requested, the storage policy never decided and issued_token_type does not name is a mismatching token (an additional id_token member is grey: the response type documents it)",
+		"when neither the client nor the storage names a token type the choice is the provider's: a refusal is not judged, a 200 must name access_token, refresh_token or id_token and contain exactly that",
+		"whether a storage failure may ever be answered with 200 is C10's statement; here such a 200 is held to everything a success response owes, and a failure inside one of the storage's four token-exchange hooks counts as the storage not approving (must be refused)",
 		"a provider whose issuer depends on the request is one provider per issuer: an ID token or JWT access token issued under host A is the quantifier's 'foreign' kind at host B of the same instance (as C08 models it); opaque access tokens and refresh tokens name no issuer and are grey across hosts; what a 200 contains must be live at, and name the issuer of, the host that answered")
 	var mandatory []string
 	for _, rn := range opdrv.RouterNames {
@@ -1172,6 +1293,7 @@ func main() {
 		"success:subject=id/id_token", "success:subject=foreign/jwt", "success:actor=opaque", "success:actor=jwt", "success:actor=refresh", "success:actor=id", "success:follow-up",
 		"success:grant-nil:access_token", "success:grant-nil:refresh_token", "success:grant-nil:id_token")
 	mandatory = append(mandatory, mtMandatory()...)
+	mandatory = append(mandatory, storMandatory()...)
 	if run.ReplayCase() < 0 {
 		run.Mandatory(mandatory...)
 	}
@@ -1179,11 +1301,15 @@ func main() {
 	matrixCases := run.N(matrixSize, 18*matrixSize)
 	n := run.N(matrixSize+4320, 18*matrixSize+36120) // 3 600 / 75 000 cases, each on both routers
 	nMulti := mtScriptedCount() + run.N(240, 6000) // multi-issuer histories (multi.go), each on both routers
+	nStor := storCount(run.N(96, 2400))            // storage variants: no-default-type and fault sweeps (storvar.go), each on both routers
 	run.Extra("cases", map[string]int{"scripted_scenarios": len(scenarios), "matrix": matrixCases, "near_valid": n - matrixCases, "routers": 2,
-		"multi_issuer_scripted": mtScriptedCount(), "multi_issuer_generated": nMulti - mtScriptedCount()})
+		"multi_issuer_scripted": mtScriptedCount(), "multi_issuer_generated": nMulti - mtScriptedCount(),
+		"storage_variants_scripted": len(storScripts), "storage_variants_generated": nStor - len(storScripts)})
 	if rc := run.ReplayCase(); rc >= 0 {
 		for router := 0; router < 2; router++ {
-			if rc >= multiBase {
+			if rc >= storBase {
+				runCase(run, int(rc), router, matrixCases)
+			} else if rc >= multiBase {
 				runMulti(run, int(rc)-multiBase, router)
 			} else {
 				runCase(run, int(rc), router, matrixCases)
@@ -1200,6 +1326,15 @@ func main() {
 	}
 	phase := map[string]float64{}
 	t0 := timeNow()
+	ev.Parallel(nStor, 0, func(_ int, k int) {
+		for router := 0; router < 2; router++ {
+			if pi := catch(func() { runCase(run, storBase+k, router, matrixCases) }); pi != nil {
+				run.HarnessBug(fmt.Sprintf("storage-variant case %d router %d: panic outside a monitored call: %s at %s", k, router, pi.Value, pi.Frame))
+			}
+		}
+	})
+	phase["storage_variants"] = timeNow().Sub(t0).Seconds()
+	t0 = timeNow()
 	ev.Parallel(nMulti, 0, func(_ int, k int) {
 		for router := 0; router < 2; router++ {
 			if pi := catch(func() { runMulti(run, k, router) }); pi != nil {
